@@ -148,6 +148,69 @@ def parse_args_forwarding(ctx, case):
     ctx.check('-b parsed as a matcher', (a.stop_matcher is matcher.never) == ('-b' not in left))
 
 
+def main_block(ctx, case):
+    """the program's entry point (main.py run as __main__) with the real argv handling: what wayland-debug itself does (verbosity, colour, mode)
+    is decided by the words before the marker only; the words after it reach the runner verbatim"""
+    import logging, io, contextlib, runpy, sys, os
+    from core import util
+    import backends.libwayland_debug_output as lwo
+    from backends import gdb_plugin
+    from core.wl import protocol
+    from frontends.tui import arguments
+    repo = os.environ.get('VERIF_REPO', '/repo')
+    ours = ctx.choose([[], ['-C'], ['--verbose'], ['-f', 'wl_pointer'], ['--verbose', '-b', 'wl_surface'], ['-l', 'x.log'], ['-l', ''], ['-p'], ['--load', '', '-C']], 'ours')
+    marker = ctx.choose(['-r', '--run', '-g', '--gdb'], 'marker')
+    fw = ctx.choose([['prog'], ['prog', '--verbose'], ['--verbose'], ['prog', '-C', '--color'], ['prog', '-f', '('], ['prog', '--supress', '-l', 'x']], 'forwarded')
+    calls = []
+
+    class Records(logging.Handler):
+        def __init__(self):
+            super().__init__(level=logging.DEBUG)
+            self.items = []
+
+        def emit(self, record):
+            self.items.append((record.levelno, record.getMessage()))
+    h = Records()
+    root = logging.getLogger()
+    saved = (lwo.run_program, gdb_plugin.run_gdb, protocol.load_all, arguments.check_gdb, list(sys.argv), root.level, util.verbose, util.color_output, logging.root.manager.disable)
+    lwo.run_program = lambda output, args, *a: calls.append(('run', args)) or 0
+    gdb_plugin.run_gdb = lambda args, quiet: calls.append(('gdb', args))
+    protocol.load_all = lambda out: None
+    arguments.check_gdb = lambda: False
+    sys.argv = ['main.py'] + ours + [marker] + fw
+    logging.disable(logging.NOTSET)
+    root.addHandler(h)
+    so, se = io.StringIO(), io.StringIO()
+    code = None
+    try:
+        with contextlib.redirect_stdout(so), contextlib.redirect_stderr(se):
+            try:
+                runpy.run_path(os.path.join(repo, 'main.py'), run_name='__main__')
+            except SystemExit as e:
+                code = e.code
+    finally:
+        root.removeHandler(h)
+        lwo.run_program, gdb_plugin.run_gdb, protocol.load_all, arguments.check_gdb = saved[:4]
+        sys.argv = saved[4]
+        root.setLevel(saved[5])
+        util.verbose, util.color_output = saved[6], saved[7]
+        logging.disable(saved[8])
+    verbose = '--verbose' in ours
+    if any(o in ours for o in ('-l', '--load', '-p')):
+        ctx.check('a second mode before the marker (-l FILE, also with an empty name, or -p): usage / error, nothing runs', calls == [] and (code is not None or so.getvalue() != ''))
+        return
+    ctx.check('the runner is started once, in the mode of the marker', len(calls) == 1 and calls[0][0] == ('run' if marker in ('-r', '--run') else 'gdb'))
+    if len(calls) != 1:
+        return
+    a = calls[0][1]
+    ctx.check('forwarded words reach the runner verbatim', list(a.command_args) == fw)
+    ctx.check('our words are the ones before the marker', list(a.wayland_debug_args)[1:] == ours)
+    ctx.check('verbosity is decided by OUR words only', a.show_verbose == verbose)
+    chatty = [m for lv, m in h.items if lv < logging.WARNING]
+    ctx.check('without -v/--verbose before the marker wayland-debug logs nothing below warnings, whatever the program\'s words are', verbose or chatty == [])
+    ctx.check('nothing is printed on standard output by wayland-debug itself', so.getvalue() == '')
+
+
 def bad_matchers(ctx, case):
     import logging, io, contextlib
     logging.disable(logging.CRITICAL)
@@ -295,6 +358,8 @@ def obligations(tier):
         Ob('select-mode', 'symx', 'exactly one of run / gdb / load / pipe / in-GDB', FUNCS[3:4], 'all 3 x 2 x 3 x 2 combinations', select_mode, cases=[None], stubs=['check_gdb stubbed']),
         Ob('parse-args-forwarding', 'symx', 'real parse_args: forwarded words (symbolic, or spelled like our options) come back as the identical objects; our side is interpreted', FUNCS[4:5],
            '5 left parts x 6 marker spellings x 5 forwarded vectors', parse_args_forwarding, cases=[None], stubs=['check_gdb stubbed', 'stdout/stderr captured']),
+        Ob('main-block', 'symx', 'main.py run as __main__ with the real sys.argv handling: verbosity / colour / mode from our words only, forwarded words verbatim, no chatter caused by the program\'s words',
+           FUNCS[4:5] + ['main:__main__'], '9 x 4 x 6 argument vectors', main_block, cases=[None], stubs=['run_program / run_gdb / protocol.load_all replaced by recorders']),
         Ob('malformed-matchers', 'symx', '-f/-b values are parsed as matchers; malformed ones raise', FUNCS[4:5], '4 option spellings x 18 texts (9 malformed, 9 well-formed incl. values starting with @ * ! [ .)', bad_matchers, cases=[None]),
         Ob('gdb-quoting', 'symx', 'run_gdb: words reach the in-GDB sys.argv literal only through repr(); forwarded words verbatim after `gdb -ex <cmd>`', FUNCS[5:6],
            '0..3 opaque words (any content); replay on %d hostile concrete words' % len(HOSTILE), gdb_quoting, cases=[0, 1, 2, 3], stubs=['subprocess replaced by a recorder', 'verify_gdb_available stubbed']),
